@@ -207,8 +207,8 @@ pub fn c01(tier: Tier) -> i32 {
     let env = Env::new();
     let mut acc = Acc::new();
     let (n_full, n_red) = match tier {
-        Tier::Quick => (4, 6),
-        Tier::Thorough => (6, 8),
+        Tier::Quick => (5, 7),
+        Tier::Thorough => (7, 9),
     };
     explore_alpha("C01", &mut ctx, &env, &profiles::match1(&["2"], false), n_full, &mut acc);
     explore_alpha("C01", &mut ctx, &env, &profiles::match1(&["2", "2.5"], true), n_red, &mut acc);
@@ -237,8 +237,8 @@ pub fn c02(tier: Tier) -> i32 {
     let env = Env::new();
     let mut acc = Acc::new();
     let (n_full, n_red, n_two) = match tier {
-        Tier::Quick => (4, 5, 4),
-        Tier::Thorough => (6, 7, 6),
+        Tier::Quick => (5, 6, 5),
+        Tier::Thorough => (6, 8, 6),
     };
     explore_alpha("C02", &mut ctx, &env, &profiles::match1(&["2"], false), n_full, &mut acc);
     explore_alpha("C02", &mut ctx, &env, &profiles::match1(&["3", "2.5"], true), n_red, &mut acc);
@@ -259,7 +259,7 @@ pub fn c05(tier: Tier) -> i32 {
     let env = Env::new();
     let mut acc = Acc::new();
     let (n_full, n_over) = match tier {
-        Tier::Quick => (4, 4),
+        Tier::Quick => (5, 5),
         Tier::Thorough => (6, 6),
     };
     explore_alpha("C05", &mut ctx, &env, &profiles::match1(&["2"], false), n_full, &mut acc);
